@@ -90,7 +90,19 @@ func (p *paddr) flags() (public, unspec, localhost bool) {
 
 func initPool() {
 	var keys [][]byte
-	for _, s := range poolSpec {
+	spec := append([]struct{ class, text string }{}, poolSpec...)
+	for _, g := range genPoolSpec() { // generated shapes x IP classes (fpgen.go)
+		dup := false
+		for _, s := range spec {
+			if s.text == g.text {
+				dup = true
+			}
+		}
+		if !dup {
+			spec = append(spec, g)
+		}
+	}
+	for _, s := range spec {
 		p := &paddr{name: s.text, class: s.class}
 		switch s.text {
 		case "<nil>":
@@ -257,6 +269,12 @@ func listOracle(fn string, in []*paddr, out []multiaddr.Multiaddr) string {
 	case "fp":
 		if !isSubsequence(out, inMa) {
 			return "output is not an order-preserving selection of the input"
+		}
+		for _, p := range in {
+			// judged from the address text with net/netip, independent of go-multiaddr/net
+			if why := textDrop(p.name); why != "" && cout[key(p.ma)] > 0 {
+				return "returns:" + why + ":" + p.name
+			}
 		}
 		for _, p := range in {
 			switch p.class {
